@@ -324,6 +324,18 @@ MOTIFS['M34b_outside_reader_of_unneeded_case_ancestor'] = spec([
     node(5, body=LAB), node(6, [('a', sw(5, [('l0', 4), ('l1', 3)]))], is_rec=True, recur_k=1),
     node(7, [('a', rec(1, 6, 2)), ('b', inp(2))])])
 
+# the same case / the same candidate is selected again after a restart and lies inside the subgraph: it has to be executed
+# again (lazily: hidden when the switch / the one-of starts its sub-DAG), with the start node's new data
+MOTIFS['M31d_switch_in_rec_same_case_inside_again'] = spec([
+    node(0), node(1, [('a', inp(0))], has_additional=True), node(2, [('a', inp(1))], body=LAB),
+    node(3, [('a', inp(1))]), node(4, [('a', inp(1))]),
+    node(5, [('a', sw(2, [('l0', 3), ('l1', 4)]))]), node(6, [('a', inp(5))], is_rec=True, recur_k=2),
+    node(7, [('a', rec(1, 6, 3))])])
+MOTIFS['M32f_oneof_in_rec_same_candidate_inside_again'] = spec([
+    node(0), node(1, [('a', inp(0))], has_additional=True), node(2, [('a', inp(1))]),
+    node(3, [('a', inp(1))]), node(4, [('a', one(2, 3))]),
+    node(5, [('a', inp(4))], is_rec=True, recur_k=2), node(6, [('a', rec(1, 5, 3))])])
+
 
 def _with_cb(sp, cb):
     sp = dict(sp)
